@@ -26,6 +26,7 @@
 import rustworkx as rx
 import numpy as np
 from rich.tree import Tree
+from rich.text import Text
 from rich import print
 import json
 import pandas as pd
@@ -415,7 +416,7 @@ class System:
 
     def _make_rtree(self, adj, node):
         """Create Rich tree"""
-        tree = Tree(node)
+        tree = Tree(Text(node))
         for child in adj.get(node, []):
             tree.add(self._make_rtree(adj, child))
         return tree
@@ -734,7 +735,7 @@ class System:
             ridx = self._get_sources()
             root = [self._g[n]._params["name"] for n in ridx]
 
-        t = Tree(self._g.attrs["name"])
+        t = Tree(Text(self._g.attrs["name"]))
         for n in root:
             adj = rx.bfs_successors(self._g, self._g.attrs["nodes"][n])
             ndict = {}
